@@ -163,7 +163,7 @@ func TestCheck(t *testing.T) {
 	}
 	// (5) random values
 	rr := r.Rand("c01-random")
-	for i, n := 0, r.Pick(150000, 3000000); i < n; i++ {
+	for i, n := 0, r.Pick(150000, 8000000); i < n; i++ {
 		cases = append(cases, tcase{gen.Random(rr), fmt.Sprintf("random #%d", i), false})
 	}
 	// (6) thorough: the largest expressible packet
